@@ -51,11 +51,19 @@ class _OldLift(ast.NodeTransformer):
 def base_env(env):
     unb = env.get('__unbounded_hi__', 10000)
 
+    import itertools
+
+    def points(f, lo, hi):
+        n = f.__code__.co_argcount
+        top = (unb if n == 1 else min(unb, 48)) if hi is None else hi     # "no upper bound": a builder-chosen horizon
+        r = range(lo, top)
+        return ((j,) for j in r) if n == 1 else itertools.product(r, repeat=n)
+
     def forall(f, lo, hi):
-        return all(f(j) for j in range(lo, unb if hi is None else hi))
+        return all(f(*p) for p in points(f, lo, hi))
 
     def exists(f, lo, hi):
-        return any(f(j) for j in range(lo, unb if hi is None else hi))
+        return any(f(*p) for p in points(f, lo, hi))
     e = {'forall': forall, 'exists': exists, 'implies': lambda a, b: (not a) or b,
          'length': len, 'is_none': lambda x: x is None}
     e.update(env)
@@ -177,7 +185,8 @@ def run(req):
                         violated.append(f'post_on_raise.{exc}.{label}')
                 except Exception as err:
                     errors[label] = repr(err)
-    return {'status': 'violated' if violated else 'holds', 'violated': violated, 'observed': observed,
+    status = 'violated' if violated else ('clause_error' if errors else 'holds')   # a clause that could not be
+    return {'status': status, 'violated': violated, 'observed': observed,          # evaluated is never "holds"
             'exception': exc, 'clause_errors': errors}
 
 
